@@ -25,6 +25,7 @@ LEAN = os.path.join(VERIF, "lean")
 DRIVER = os.path.join(LEAN, ".lake", "build", "bin", "mpdriver")
 STD_AXIOMS = {"propext", "Classical.choice", "Quot.sound"}
 TOL = 1e-9
+QUICK_FACTOR = 4     # the quick tier runs 4x the nominal per-stream budgets (each check stays well under a minute)
 
 _scratch = None
 
@@ -297,7 +298,7 @@ class Ctx(object):
 
     def budget(self, quick, thorough):
         scale = float(os.environ.get("VERIF_SCALE", "1"))
-        return int((thorough if self.thorough else quick) * scale)
+        return int((thorough if self.thorough else quick * QUICK_FACTOR) * scale)
 
     def disagree(self, stream, case, impl, model):
         self.disagreements.append({"stream": stream, "case": case, "impl": impl, "model": model})
